@@ -765,9 +765,11 @@ func (dht *FullRT) SearchValue(ctx context.Context, key string, opts ...routing.
 			return
 		}
 
-		ctx, cancel := context.WithTimeout(ctx, time.Second*5)
-		dht.updatePeerValues(ctx, key, best, updatePeers)
-		cancel()
+		// updatePeerValues only starts the corrective puts (each bounded by its
+		// own timeout), so they can neither run under a context that is
+		// cancelled as soon as they are started, nor under the caller's, which
+		// usually ends once the value has been read.
+		dht.updatePeerValues(dht.ctx, key, best, updatePeers)
 	}()
 
 	return out, nil
